@@ -359,16 +359,17 @@ Inductive cat_violation (oc : octx) : edit -> Prop :=
 | CV_value k kd v : In (k, kd) catalog_table -> direct v -> val_ok oc kd v = false -> cat_violation oc (ESet k v)
 | CV_indirect k kd v : In (k, kd) catalog_table -> kind_indirect kd = true -> direct v -> cat_violation oc (ESet k v).
 
-(* [mutation d (oc', root')]: the emitted document with exactly one object edited into a violation *)
+(* [mutation d (oc', root')]: the emitted document with exactly one object edited into a violation
+   (the new value is judged in the document it sits in) *)
 Inductive mutation (d : doc) : octx * obj -> Prop :=
 | M_cat e : cat_violation (emit_ctx d) e -> mutation d (emit_ctx d, apply_edit e (emit_root d))
 | M_root e : d_pages_direct d = false -> node_violation true (d_kids d) e ->
              mutation d (ctx_edit (d_root d) e (emit_ctx d), emit_root d)
 | M_node p i c ks ex e : In (p, KNode i c ks ex) (doc_kids d) -> node_violation false ks e ->
              mutation d (ctx_edit i e (emit_ctx d), emit_root d)
-| M_page p i a e : In (p, KPage i a) (doc_kids d) -> leaf_violation (emit_ctx d) true e ->
+| M_page p i a e : In (p, KPage i a) (doc_kids d) -> leaf_violation (ctx_edit i e (emit_ctx d)) true e ->
              mutation d (ctx_edit i e (emit_ctx d), emit_root d)
-| M_template p i a e : In (p, KTemplate i a) (doc_kids d) -> leaf_violation (emit_ctx d) false e ->
+| M_template p i a e : In (p, KTemplate i a) (doc_kids d) -> leaf_violation (ctx_edit i e (emit_ctx d)) false e ->
              mutation d (ctx_edit i e (emit_ctx d), emit_root d).
 
 (* ---------- 5. looking inside a specification (for the finite facts about the dump) ---------- *)
